@@ -1049,6 +1049,8 @@ class Ev:
                     self.bind(t, self.merge([(c, tv.items[i]) for c, tv in v.alts]), env)
             else:
                 raise Unsupported("tuple unpacking of a non-tuple value")
+        elif isinstance(target, ast.Attribute) and getattr(self, "opaque_fields", False):
+            pass  # object state is not part of the value analysis in this mode
         else:
             raise Unsupported("assignment target")
 
